@@ -83,7 +83,7 @@ def run(ctx):
         ctx.count(json.dumps(tr["events"], sort_keys=True) if rej else None)
     ctx.sample({"consts": traces[0]["consts"], "events": [{k: (v if k != "tree" else "...") for k, v in e.items() if k != "shape"}
                                                            for e in traces[0]["events"][1:6]]}, limit=3)
-    ctx.trace("util/TraceHashTree", traces, batch=100 if q else 150,
+    ctx.trace("util/TraceHashTree", traces, batch=100 if q else 150, workers=4,
               key_of=lambda tr, l, clause: "trace:%s:%s" % (clause, tr["events"][l - 1]["ev"]),
               what_of=lambda tr, l, clause: "real IncompleteHashTree (n=%d) disagrees with HashTree.tla at event %d (%s): %s" % (
                   tr["consts"]["n"], l, tr["events"][l - 1]["ev"], clause))
